@@ -253,6 +253,14 @@ class Built:
                     # and its keyword constraints are attached lazily, at evaluation time
                     self.vars[vid] = self.classes[cls](*pos, **kw)
                     continue
+                if self.case.get('share_from'):
+                    # ONE From(...) object handed to every variable that ranges over the same collection
+                    shared = self.__dict__.setdefault('_shared_from', {})
+                    key = tuple(raw)
+                    if key not in shared:
+                        shared[key] = From([self.decode(v) for v in raw])
+                    self.vars[vid] = self.classes[cls](shared[key], *pos, **kw)
+                    continue
                 self.vars[vid] = self.classes[cls](From([self.decode(v) for v in raw]), *pos, **kw)
             else:
                 self.vars[vid] = let(self.classes[cls], [self.decode(v) for v in raw], name=f"v{vid}")
